@@ -2,7 +2,7 @@
 import copy
 import itertools
 
-from . import engine, probe, ref, build as B
+from . import engine, known, probe, ref, build as B
 from .runner import digest
 
 
@@ -222,7 +222,7 @@ def completeness_case(ctx, case, check_name, families_required=None, enum_cap=15
                 "seed": seed,
                 "probe": {"kind": "candidate", "origin": origin, "schedule": c},
                 "observed": "reference-VALID schedule is not admitted by the constraint system",
-                "signature": {"rule": "valid_schedule_rejected", "classes": engine.classes_of(spec), **(sig_extra(spec, c) if sig_extra else {})},
+                "signature": {"rule": "valid_schedule_rejected", "classes": engine.classes_of(spec), **known.features(spec, c), **(sig_extra(spec, c) if sig_extra else {})},
             }
             ctx.violation(rec)
             continue
